@@ -134,6 +134,40 @@ def fam_lenprefix(rng: random.Random) -> Grammar:
     return g
 
 
+def fam_signed(rng: random.Random) -> Grammar:
+    """Lists of integers with an optional (nullable) sign / padding."""
+    sep = rng.choice([",", ";", " "])
+    g = {
+        "<start>": ["<list>"],
+        "<list>": [f"<int>{sep}<list>", "<int>"],
+        "<int>": ["<sign><digits>"],
+        "<sign>": ["", "-"] if rng.random() < 0.7 else ["", "-", "+"],
+        "<digits>": ["<digit><digits>", "<digit>"],
+        "<digit>": _digits(rng),
+    }
+    if rng.random() < 0.4:
+        g["<int>"] = ["<sign><pad><digits>"]
+        g["<pad>"] = ["", "0<pad>"]
+    return g
+
+
+def fam_ambig(rng: random.Random) -> Grammar:
+    """Ambiguous on purpose: the same string has derivation trees that differ in the
+    nonterminals used, so that verdicts depend on the tree, not on the string."""
+    a, b = rng.sample(["x", "y", "z"], 2)
+    g = {
+        "<start>": ["<items>"],
+        "<items>": ["<item><items>", "<item>"],
+        "<item>": ["<a>", "<b>"],
+        "<a>": [a],
+        "<b>": [a, b],
+    }
+    if rng.random() < 0.5:
+        g["<item>"] = ["<a>", "<b>", "<c>"]
+        g["<c>"] = [b, a + b]
+    return g
+
+
 def fam_wide(rng: random.Random) -> Grammar:
     """One alternative with many symbols (fan-out > 28)."""
     n = rng.randint(29, 40)
@@ -200,6 +234,8 @@ FAMILIES = {
     "xml": fam_xml,
     "expr": fam_expr,
     "lenprefix": fam_lenprefix,
+    "signed": fam_signed,
+    "ambig": fam_ambig,
     "wide": fam_wide,
     "random": fam_random,
 }
@@ -387,7 +423,7 @@ def make_grammar(rng: random.Random, family: Optional[str] = None) -> Tuple[str,
     if family is None:
         family = rng.choice(
             ["assgn", "assgn", "blocks", "csv", "config", "config", "xml", "expr",
-             "lenprefix", "wide", "random", "random", "random"]
+             "lenprefix", "signed", "signed", "ambig", "wide", "random", "random", "random"]
         )
     for _ in range(20):
         g = FAMILIES[family](rng)
